@@ -425,6 +425,8 @@ def search(nc: NativeContract, seed: int, budget: int, builders=None, exhaustive
             w = one(args)
             if w:
                 return w, stats
+    if exhaustive is not None and getattr(c, "exhaustive_only", False):
+        return None, stats
     for _ in range(budget):
         args = {n: gen.value(k) for n, k in kinds}
         w = one(args)
